@@ -651,6 +651,7 @@ func check(c *kit.Case, h *hist, tg target, desc map[string]any, quiescent bool)
 	}
 	var waits []wt
 	open := map[int]uint64{}
+	var escapes []string
 	for _, e := range evs {
 		switch e.Op {
 		case "add.inv":
@@ -662,6 +663,8 @@ func check(c *kit.Case, h *hist, tg target, desc map[string]any, quiescent bool)
 		case "wait.ret":
 			waits = append(waits, wt{open[e.A], e.S, e.A})
 			delete(open, e.A)
+		case "panic-escaped.add", "panic-escaped.wait", "panic-escaped.flush":
+			escapes = append(escapes, e.Op)
 		}
 	}
 	occ := map[int][]int{} // task -> indices of executions that got it (with multiplicity)
@@ -683,6 +686,12 @@ func check(c *kit.Case, h *hist, tg target, desc map[string]any, quiescent bool)
 		if _, ok := found[key]; !ok {
 			found[key] = &finding{key, what, extra}
 		}
+	}
+
+	// ---- containment: the callback's panic never reaches the client
+	if len(escapes) > 0 {
+		add("C11/panic-escaped/"+kind+"/"+strings.TrimPrefix(escapes[0], "panic-escaped."),
+			"the panic of an Execute callback came out of an API call of the client", map[string]any{"escaped": escapes})
 	}
 
 	// ---- never a task that was not added, never twice
@@ -848,19 +857,35 @@ func (o clientOp) String() string {
 	return o.K
 }
 
+// escaped records a harness poison panic that came out of an API call ("a panicking
+// callback loses only its own batch": it must not reach the caller); any other panic
+// is not ours to judge and is re-raised.
+func escaped(a *actor, api string) {
+	if p := recover(); p != nil {
+		if s, ok := p.(string); ok && strings.HasPrefix(s, "verif: poisoned task") {
+			a.rec("panic-escaped."+api, -1)
+			return
+		}
+		panic(p)
+	}
+}
+
 func doAdd(a *actor, tg target, t *tk) {
+	defer escaped(a, "add")
 	a.rec("add.inv", t.id)
 	tg.Add(t)
 	a.rec("add.ret", t.id)
 }
 
 func doWait(a *actor, tg target) {
+	defer escaped(a, "wait")
 	a.rec("wait.inv", -1)
 	tg.Wait()
 	a.rec("wait.ret", -1)
 }
 
 func doFlush(a *actor, tg target) {
+	defer escaped(a, "flush")
 	a.rec("flush.inv", -1)
 	tg.Flush()
 	a.rec("flush.ret", -1)
